@@ -87,6 +87,9 @@ pub enum Instr {
     Hold { counter: u32 },
     /// `FuturesUnordered` of one-shot requests (known-finding class for C07)
     JoinAllUnordered { sites: Vec<u32> },
+    /// `join(join_all(requests), join_all(join handles))`: wait for shell requests and for
+    /// sub-tasks at the same time
+    JoinMixed { sites: Vec<u32>, handles: Vec<usize> },
     /// task-to-task channel: spawn a producer sub-task holding the sender of a fresh unbounded
     /// channel; pushes a join handle slot and a stream slot (the receiver) in this task
     SpawnPipe { script: Script },
@@ -255,6 +258,7 @@ impl Script {
                     script.constructors(out)
                 }
                 Instr::Send { .. } => out.push("i.Send"),
+                Instr::JoinMixed { .. } => out.push("i.JoinMixed"),
             }
         }
     }
